@@ -117,3 +117,46 @@ func VerifC09_TrafficRoutingContextNoPanic() {
 // canaryStatus, a canary rollout no blueGreenStatus).  Same relation as VerifC10_Dispatch; here the obligation is
 // the absence of a runtime panic.
 func VerifC09_ProgressingSpecialCasesNoPanic() { VerifC10_Dispatch() }
+
+// The release style of a Rollout can be changed while it is Healthy (the webhook freezes it only while Progressing or
+// Terminating); the status then still holds the sub-status of the *other* style until the next release starts — or none
+// at all.  Deleting, disabling or finishing such a Rollout runs the clean-up of the manager its spec names: it must
+// cope with its own sub-status being absent.
+func VerifC09_CleanupAfterAStyleChangeNoPanic() {
+	vSimple = true
+	specBlueGreen := verifrt.Bool("spec.blueGreen")
+	var r *v1beta1.Rollout
+	if specBlueGreen {
+		r = vBlueGreenRollout(1, 1)
+	} else {
+		r = vCanaryRollout(1, 1)
+	}
+	canarySub, blueGreenSub := r.Status.CanaryStatus, r.Status.BlueGreenStatus
+	r.Status.CanaryStatus, r.Status.BlueGreenStatus = nil, nil
+	switch verifrt.IntRange("status.subStatus", 0, 2) {
+	case 1:
+		// the sub-status of the other style
+		if specBlueGreen {
+			r.Status.CanaryStatus = &v1beta1.CanaryStatus{}
+			if blueGreenSub != nil {
+				r.Status.CanaryStatus.CommonStatus = blueGreenSub.CommonStatus
+			}
+		} else {
+			r.Status.BlueGreenStatus = &v1beta1.BlueGreenStatus{}
+			if canarySub != nil {
+				r.Status.BlueGreenStatus.CommonStatus = canarySub.CommonStatus
+			}
+		}
+	case 2:
+		r.Status.CanaryStatus, r.Status.BlueGreenStatus = canarySub, blueGreenSub
+	}
+	c := vContext(r)
+	c.FinalizeReason = c04Reason()
+	cli := &symclient.Client{}
+	calls := &vCalls{}
+	c04StubTasks(calls)
+	rec := c10Reconciler(cli)
+	panicked := verifrt.NoPanic(func() { _, _ = rec.doFinalising(c) })
+	verifrt.Assert(!panicked, "C09.cleanup.afterStyleChange.nopanic")
+	verifrt.Cover("done")
+}
